@@ -125,7 +125,7 @@ def _appends(f, listname):
     return out
 
 
-def deporder(repo, clauses=("text", "ok")):
+def deporder(repo, clauses=("text", "ok", "decl")):
     res = RuleResult("R-DEPORDER")
     m, f, cls_site = _find_struct_generator(repo)
     # the struct_text_stream site
@@ -159,6 +159,26 @@ def deporder(repo, clauses=("text", "ok")):
             if isinstance(n, ast.Call) and isinstance(n.func, ast.Attribute) and n.func.attr in ("sort", "reverse") \
                     and isinstance(n.func.value, ast.Name) and n.func.value.id == lst:
                 res.add(f"{HG}|{f.qualname}|{role}|reorder", f"{lst} is reordered after being built", HG, n.lineno, f.qualname)
+    # accessor declarations: an alias accessor is declared with decltype(this-><target>()), which needs the target's
+    # declaration earlier in the class body
+    ckws = {k.arg: k.value for k in cls_site.keywords}
+    role = "field_method_declarations"
+    if role in ckws:
+        lst = _join_arg_name(ckws[role])
+        res.instances += 1
+        if lst is None:
+            res.add(f"{HG}|{f.qualname}|{role}", f"{role}= is not built by joining a list", HG, f.line, f.qualname)
+        else:
+            apps = _appends(f, lst)
+            if not apps:
+                res.add(f"{HG}|{f.qualname}|{role}|empty", f"nothing is appended to {lst}", HG, f.line, f.qualname)
+            for a in apps:
+                loops = [p for p in _enclosing(m, a, f.node) if isinstance(p, ast.For)]
+                ok = any(ast.unparse(l.iter).endswith(("fields_in_dependency_order", "runtime_parameter")) for l in loops)
+                if a.func.attr != "append" or not ok:
+                    res.add(f"{HG}|{f.qualname}|{role}|order", f"{lst} (accessor declarations) receives elements outside a loop over "
+                            "fields_in_dependency_order: an alias accessor `auto a() -> decltype(this->b())` can be declared before "
+                            "`b()`, and the header does not compile", HG, a.lineno, f.qualname)
     # Ok() field checks
     res.instances += 1
     kws = {k.arg: k.value for k in cls_site.keywords}
@@ -177,6 +197,8 @@ def deporder(repo, clauses=("text", "ok")):
                 "fields in dependency order", HG, f.line, f.qualname)
     res.samples = [f"{f.qualname}: decode_fields/write_fields/field_ok_checks built in fields_in_dependency_order loops"]
     res.analysed = [HG]
+    if "decl" not in clauses:
+        res.findings = [x for x in res.findings if "field_method_declarations" not in x.key]
     if "text" not in clauses:
         res.findings = [x for x in res.findings if "_fields" not in x.key.rsplit("|", 2)[-2] and not x.key.endswith(("decode_fields", "write_fields"))]
     if "ok" not in clauses:
